@@ -710,6 +710,7 @@ class Engine:
         self.stats = stats
         self.model = None
         self.handles = {}
+        self.magic = {}  # magic numeral text (lower case) -> SymInt: numerals of a source text that stand for a term (C09/C10)
         self.handle_seq = 0
         self.fresh_seq = 0
         self.decided = {}  # term id -> choice already implied by the path condition
